@@ -201,7 +201,7 @@ Proof. vm_compute. reflexivity. Qed.
 Lemma C11_family_released_exactly_once_refuted :
   exists (c : config) (ins : list rdinput) (f : fam),
     disciplined c ins = true /\ deferred c f = true /\
-    (releases f (rd_trace (fst (rd_new c (Some 360))) ins) > 1)%nat.
+    (releases f (rd_trace (fst (rd_new c (Some 360%N))) ins) > 1)%nat.
 Proof.
   exists [(1, [65537; 131073]); (2, [131073])],
          [PeerEstablished 1 []; PeerEstablished 2 [131073]; EorReceived 2 65537], 65537.
